@@ -117,8 +117,11 @@ def variation(h, inp):
                 extra_pids=(IDLE,) + PIDS)
 
 
-def classes(inp, got, cov):
-    """Input classes and result classes exercised (vacuity guard)."""
+def classes(inp, exp, cov):
+    """Input classes and -- when the specification's expectation *exp* is at
+    hand -- expected result classes exercised (vacuity guard; the code's own
+    answers are deliberately not counted: a broken answer is a violation, not
+    a hole in the coverage)."""
     cov["form:" + ("process" if inp["who"] else "system")] += 1
     cov["kind:" + (inp["kind"] if inp["kind"] in sim_c11.KINDS else "<unknown>")] += 1
     by = collections.defaultdict(set)
@@ -140,12 +143,16 @@ def classes(inp, got, cov):
             for a in (s["l"], s["r"]):
                 cov["addr:" + a[0]] += 1
                 cov["port:" + ("0" if a[1] == 0 else "65535" if a[1] == 65535 else "n")] += 1
-    cov["answer:" + ("rows" if got["rows"] else got["err"].split(":")[0] if got["err"] != "none" else "empty")] += 1
-    for r in got["rows"]:
-        f = r["f"]
+    if exp is None:
+        return
+    cov["expect:" + ("rows" if exp["groups"] else "empty" if exp["err"] == "none" else exp["err"])] += 1
+    for g in exp["groups"]:
+        f = g["f"]
         cov["row:%s/%s" % (f["fam"], f["type"])] += 1
         cov["status:" + f["status"]] += 1
-        cov["owner:" + ("nobody" if r["pid"] == 0 and r["fd"] == -1 else "pid")] += 1
+        cov["owner:" + ("nobody" if [0, -1] in g["owners"] else "pid")] += 1
+        cov["rows-of-socket:" + ("optional" if g["need"] == [[]] else "any-one-holder" if len(g["need"]) > 1
+                                 else "every-holder" if len(g["need"][0]) > 1 else "one")] += 1
         if f["fam"] != "unix":
             cov["laddr:" + ("empty" if not f["laddr"] else "set")] += 1
             cov["raddr:" + ("empty" if not f["raddr"] else "set")] += 1
@@ -171,7 +178,7 @@ def run_chunk(raws):
         h = zlib.crc32(raw.encode())
         sim_c11.build_world(w, inp, **variation(h, inp))
         got = sim_c11.query(ps, inp)
-        classes(inp, got, cov)
+        classes(inp, ev["out"], cov)
         v, y = sim_c11.verdict(ev, got)
         if v:
             bad.append((i, v, y, got))
@@ -286,7 +293,7 @@ def rand_chunk(job):
         sim_c11.build_world(w, inp, inodes=inodes, order=order, omit_v6=rnd.random() < 0.3,
                             extra_pids=[idle] + [h[0] for h in inp["hold"]] + rnd.sample(range(20, 60), 2))
         got = sim_c11.query(ps, inp)
-        classes(inp, got, cov)
+        classes(inp, None, cov)
         lines.append({"inp": inp, "got": got})
     return lines, cov
 
@@ -355,7 +362,7 @@ def trace_validate(ctx, n, rec, live, cov):
         ctx.case(json.dumps(l["inp"], sort_keys=True))
         if v:
             where = "live kernel" if l.get("live") else "simulated kernel"
-            for sig in sim_c11.signatures(v, [tuple(str(x).split(":")[0] for x in t) for t in y]):
+            for sig in sim_c11.signatures(v, y):
                 ctx.disagree(sig, "TLC rejects a recorded answer (%s): %s" % (where, describe(l["inp"], l["got"], v, y)), l)
     ctx.cov["traces_validated_against_impl"] += nrand + nlive
     ctx.cov.setdefault("replay", {})["trace-validation"] = {
@@ -370,7 +377,8 @@ def trace_validate(ctx, n, rec, live, cov):
 # ---- vacuity ----------------------------------------------------------------
 
 def required():
-    req = ["form:system", "form:process", "kind:<unknown>", "answer:rows", "answer:empty", "answer:ValueError",
+    req = ["form:system", "form:process", "kind:<unknown>", "expect:rows", "expect:empty", "expect:ValueError",
+           "rows-of-socket:optional", "rows-of-socket:any-one-holder", "rows-of-socket:every-holder", "rows-of-socket:one",
            "owner:nobody", "owner:pid", "laddr:empty", "laddr:set", "raddr:empty", "raddr:set",
            "holders:none", "holders:one", "holders:two-fds-one-pid", "holders:shared-between-pids",
            "name:unbound", "name:abstract", "name:path", "name:with-space", "status:NONE",
@@ -399,7 +407,7 @@ def replay_one(ctx, path):
     ctx.case(json.dumps(case["inp"], sort_keys=True))
     if 0 in rej:
         v, y = rej[0]
-        for sig in sim_c11.signatures(v, [tuple(str(x).split(":")[0] for x in t) for t in y]):
+        for sig in sim_c11.signatures(v, y):
             ctx.disagree(sig, "TLC rejects the answer: " + describe(case["inp"], case["got"], v, y), case)
 
 
